@@ -51,7 +51,10 @@ type testCA struct {
 	pool *x509.CertPool
 }
 
-func newTestCA(cn string, seedByte byte) testCA {
+// newTestCA makes a self-signed CA, or - with a parent - an intermediate CA whose
+// tls.Certificate carries the chain [intermediate, parent] the way tls.X509KeyPair
+// loads a chained PEM bundle.
+func newTestCA(cn string, seedByte byte, parent ...testCA) testCA {
 	seed := bytes.Repeat([]byte{seedByte}, 32)
 	priv := ed25519.NewKeyFromSeed(seed)
 	tpl := &x509.Certificate{
@@ -64,7 +67,11 @@ func newTestCA(cn string, seedByte byte) testCA {
 		KeyUsage:              x509.KeyUsageDigitalSignature | x509.KeyUsageCertSign,
 		BasicConstraintsValid: true,
 	}
-	der, err := x509.CreateCertificate(crand.Reader, tpl, tpl, priv.Public(), priv)
+	signerCert, signerKey := tpl, any(priv)
+	if len(parent) == 1 {
+		signerCert, signerKey = parent[0].x509, parent[0].cert.PrivateKey
+	}
+	der, err := x509.CreateCertificate(crand.Reader, tpl, signerCert, priv.Public(), signerKey)
 	if err != nil {
 		panic(err)
 	}
@@ -74,7 +81,11 @@ func newTestCA(cn string, seedByte byte) testCA {
 	}
 	pool := x509.NewCertPool()
 	pool.AddCert(c)
-	return testCA{cert: tls.Certificate{Certificate: [][]byte{der}, PrivateKey: priv}, x509: c, pool: pool}
+	chain := [][]byte{der}
+	if len(parent) == 1 {
+		chain = append(chain, parent[0].cert.Certificate[0])
+	}
+	return testCA{cert: tls.Certificate{Certificate: chain, PrivateKey: priv}, x509: c, pool: pool}
 }
 
 func (ca testCA) verifies(c *x509.Certificate) error {
@@ -112,7 +123,7 @@ type certCase struct {
 func (c certCase) key() string { b, _ := json.Marshal(c); return "P " + string(b) }
 
 var (
-	certClasses  = []string{"issued", "issued", "ca-v2", "ca-v2", "ca-v1", "foreign-ca-v2", "self-signed-v2", "ca-v2-ecdsa-leaf", "ca-malformed-subject", "garbage-der", "ca-cert-itself", "ca-v2-hash-of-other-key", "ca-non-numeric-id"}
+	certClasses  = []string{"issued", "issued", "ca-v2", "ca-v2", "ca-v1", "foreign-ca-v2", "bundle-root-v2", "self-signed-v2", "ca-v2-ecdsa-leaf", "ca-malformed-subject", "garbage-der", "ca-cert-itself", "ca-v2-hash-of-other-key", "ca-non-numeric-id"}
 	proofClasses = []string{"own-key", "own-key", "own-key", "own-key-client", "other-key", "other-key", "other-key-client",
 		"bad:difficulty-17", "bad:expired", "bad:subject-of-other-key", "bad:signature", "bad:none", "bad:too-far"}
 )
@@ -187,13 +198,17 @@ type certOutcome struct {
 }
 
 type pkiEnv struct {
-	ca, foreign testCA
-	srv         *pkisrv.Server
+	ca, foreign, root testCA
+	srv               *pkisrv.Server
 }
 
+// the client CA is an intermediate under a root, configured as the usual chained bundle
+// (ClientCA.Certificate = [client CA, root]): only the client CA itself issues client
+// certificates, the other certificates of the bundle do not
 func newPKIEnv() *pkiEnv {
-	ca := newTestCA("verif client ca", 0x11)
-	return &pkiEnv{ca: ca, foreign: newTestCA("verif foreign ca", 0x22), srv: &pkisrv.Server{Logger: zap.NewNop(), ClientCA: ca.cert}}
+	root := newTestCA("verif root ca", 0x33)
+	ca := newTestCA("verif client ca", 0x11, root)
+	return &pkiEnv{ca: ca, root: root, foreign: newTestCA("verif foreign ca", 0x22), srv: &pkisrv.Server{Logger: zap.NewNop(), ClientCA: ca.cert}}
 }
 
 func (e *pkiEnv) request(req *protocol.CertificateRequest) (resp *protocol.CertificateResponse, err error, panicked any) {
@@ -382,6 +397,9 @@ func (e *pkiEnv) runCase(c certCase) (o certOutcome) {
 		der, _ = specpki.GenerateCertificate(zap.NewNop(), e.ca.cert, specpki.IdentityRequest{PublicKey: pub, Subject: withOrg(specpki.MakeSubjectV1(c.ID, "tok"+c.OtherSeed))})
 	case "foreign-ca-v2":
 		der, _ = specpki.GenerateCertificate(zap.NewNop(), e.foreign.cert, specpki.IdentityRequest{PublicKey: pub, Subject: specpki.MakeSubjectV2(c.ID, hashPub[:])})
+	case "bundle-root-v2":
+		// issued by the root the client CA chains to (part of the configured bundle), not by the client CA
+		der, _ = specpki.GenerateCertificate(zap.NewNop(), e.root.cert, specpki.IdentityRequest{PublicKey: pub, Subject: specpki.MakeSubjectV2(c.ID, hashPub[:])})
 	case "self-signed-v2":
 		tpl := &x509.Certificate{SerialNumber: big.NewInt(7), Subject: specpki.MakeSubjectV2(c.ID, hashPub[:]), NotBefore: time.Now().Add(-time.Minute), NotAfter: time.Now().AddDate(1, 0, 0),
 			ExtKeyUsage: []x509.ExtKeyUsage{x509.ExtKeyUsageClientAuth}, KeyUsage: x509.KeyUsageDigitalSignature | x509.KeyUsageCertSign, BasicConstraintsValid: true, IsCA: c.Variant%2 == 0}
@@ -478,7 +496,7 @@ func (e *pkiEnv) runCase(c certCase) (o certOutcome) {
 	return
 }
 
-const c32Rule = "rapid-generated cases against a real pki.Server with a throw-away ed25519 client CA: issue (valid proofs from the harness' own solver and from the repository's client, five kinds of bad proof) and renew over 12 certificate classes (issued through RequestCertificate, CA-signed v2 with generated ids and optional extra subject fields, CA-signed v1, foreign CA, self-signed, CA-signed ECDSA leaf, malformed / non-numeric subjects, damaged or truncated DER, the CA certificate itself, v2 subject naming another key) x proof classes (own key, another key, six bad proofs). Two thirds of the renew cases carry a valid proof so that a refusal must come from the certificate checks. Non-trivial: expected success with every post-condition checked, or a refusal with a valid proof of work (i.e. a refusal class other than bad PoW). Distinct = distinct case descriptor (key seeds, classes, id, variant)."
+const c32Rule = "rapid-generated cases against a real pki.Server with a throw-away ed25519 client CA (an intermediate under a throw-away root, configured as a chained bundle): issue (valid proofs from the harness' own solver and from the repository's client, five kinds of bad proof) and renew over 13 certificate classes (issued through RequestCertificate, CA-signed v2 with generated ids and optional extra subject fields, CA-signed v1, foreign CA, a v2 certificate issued by the root of the configured CA bundle - the client CA is an intermediate and ClientCA.Certificate holds [client CA, root] -, self-signed, CA-signed ECDSA leaf, malformed / non-numeric subjects, damaged or truncated DER, the CA certificate itself, v2 subject naming another key) x proof classes (own key, another key, six bad proofs). Two thirds of the renew cases carry a valid proof so that a refusal must come from the certificate checks. Non-trivial: expected success with every post-condition checked, or a refusal with a valid proof of work (i.e. a refusal class other than bad PoW). Distinct = distinct case descriptor (key seeds, classes, id, variant)."
 
 func TestC32(t *testing.T) {
 	rec := ev.New(t, "C32")
